@@ -46,13 +46,15 @@ MkF(kind, n, c2) ==
     [] kind = "L2sq" -> FL2sq(c2, TVec(n))
     [] kind = "Box"  -> FBox(q(-1, 1), q(2, 1))
     [] kind = "Zero" -> FZero
+    [] kind = "Pt"   -> FBox(q(1, 1), q(1, 1))        \* indicator of the point (1,..,1)  (IndicatorZero translated)
+    [] kind = "Pt0"  -> FBox(q(0, 1), q(0, 1))        \* IndicatorZero
 FKinds == IF Thorough THEN {"L1", "cL1", "L1t", "L2sq", "Box", "Zero"} ELSE {"L1", "cL1", "L1t", "Box"}
 GKinds == IF Thorough THEN {"L1", "cL1", "L1t", "L2sq", "Box"} ELSE {"L1", "L2sq", "Box"}
 Starts == IF Thorough THEN {1, 2} ELSE {1}
 
 Base == [solver |-> "", tag |-> "", Ls |-> <<>>, f |-> FZero, gs |-> <<>>, h |-> FZero,
          tau |-> QOne, sig |-> <<>>, th |-> QOne, x0 |-> <<>>, y0 |-> <<>>, b |-> <<>>,
-         sol |-> <<>>, lam |-> QZero, N |-> 6]
+         sol |-> <<>>, lam |-> QZero, N |-> 6, pw |-> 1]
 
 Steps3 == IF Thorough THEN {<<q(1, 1), q(1, 4)>>, <<q(1, 2), q(1, 2)>>, <<q(1, 4), q(1, 1)>>}
           ELSE {<<q(1, 1), q(1, 4)>>, <<q(1, 2), q(1, 2)>>}
@@ -115,9 +117,22 @@ LandweberCat(u_) ==
        !.b = <<BVec(NRows(m.M))>>, !.x0 = X0(NCols(m.M), s)] :
     m \in MatsAll, om \in Omegas, s \in Starts }
 
+\* NONLINEAR forward maps A(x) = M (x .^ 2): the solvers must linearise at every iterate.  (sol, x0, omega)
+\* picked so that three exact iterations move, differ from "linearise once at the start" and stay small.
+NLCases == { <<"B32", B32, <<1, -1>>, <<3, 3>>, q(1, 8)>>,  <<"I2", I2, <<-1, -1>>, <<3, 1>>, q(1, 8)>>,
+             <<"I2", I2, <<-1, -1>>, <<-1, 3>>, q(1, 8)>>,  <<"T2", T2, <<-1, 1>>, <<3, -1>>, q(1, 8)>>,
+             <<"D12", D12, <<-1, 2>>, <<-1, 1>>, q(1, 4)>>, <<"D12", D12, <<-1, 2>>, <<1, -1>>, q(1, 4)>>,
+             <<"T2", T2, <<-1, -1>>, <<-2, 1>>, q(1, 4)>>,  <<"T2", T2, <<-1, -1>>, <<2, -1>>, q(1, 4)>> }
+NLCat(u_) ==
+  { [Base EXCEPT !.solver = sv, !.tag = c[1] \o "^2", !.Ls = <<c[2]>>, !.pw = 2, !.N = 3,
+       !.tau = IF sv = "sd" THEN SMul(c[5], Half) ELSE c[5],        \* (SD on |A(x)-b|^2 has the factor 2 in its gradient)
+       !.b = <<MatVec(c[2], RPow(RInt(c[3]), 2))>>, !.x0 = RInt(c[4])] :
+    c \in NLCases, sv \in {"landweber", "sd"} }
+
 KaczmarzCat(u_) ==
   { [Base EXCEPT !.solver = "kaczmarz", !.tag = m.nm, !.Ls = Rows(m.M),
-       !.sig = [i \in 1..Len(m.M) |-> om], !.sol = SolVec(NCols(m.M)),
+       !.sig = [i \in 1..Len(m.M) |-> IF i % 2 = 1 THEN om ELSE SMul(om, Half)],   \* per-operator relaxation
+       !.sol = SolVec(NCols(m.M)),
        !.b = [i \in 1..Len(m.M) |-> MatVec(<<m.M[i]>>, SolVec(NCols(m.M)))],
        !.x0 = X0(NCols(m.M), s)] :
     m \in MatsAll \ {Named("D12", D12)}, om \in Omegas, s \in Starts }
@@ -208,7 +223,7 @@ KSteps(M) == { st \in {<<q(1, 2), q(1, 2)>>, <<q(1, 1), q(1, 4)>>, <<q(1, 2), q(
                SLt(SMul(SMul(st[1], st[2]), Frob2(M)), QOne) }
 KMats == {Named("I2", I2), Named("D12", D12)} \cup (IF Thorough THEN {Named("B32", B32), Named("T2", T2)} ELSE {})
 KF == {"L1t", "Box", "L2sq"} \cup (IF Thorough THEN {"L1"} ELSE {})
-KG == {"L1", "Box", "L2sq"} \cup (IF Thorough THEN {"L1t"} ELSE {})
+KG == {"L1", "Box", "L2sq"} \cup (IF Thorough THEN {"L1t", "Pt"} ELSE {})
 KStart(n) == SubSeq(RInt(<<3, -2, 1>>), 1, n)
 KPDHG(u_) ==
   { [Base EXCEPT !.solver = "pdhg", !.tag = m.nm \o "/" \o fk \o "/" \o gk,
@@ -254,6 +269,36 @@ KPG(u_) ==
     m \in KMats, fk \in KF, ga \in {q(1, 4), q(1, 8)}, lam \in {QOne, Half} }
 KPGCat(u_) == { I \in KPG(0) : PGAdmissible(I) }
 
+\* ---- several non-trivial operators of different range sizes and different sigma_i (DR, forward-backward)
+KPairs == {[nm |-> "I2+D12", A |-> I2, B |-> D12]} \cup
+          (IF Thorough THEN {[nm |-> "D12+B32", A |-> D12, B |-> B32]} ELSE {})
+K2F == {"L1t", "L2sq"} \cup (IF Thorough THEN {"Box"} ELSE {})
+K2G1 == {"L1", "L2sq"}
+K2G2 == {"Box", "L2sq"} \cup (IF Thorough THEN {"L1t"} ELSE {})
+KDR2(u_) ==
+  { [Base EXCEPT !.solver = "dr", !.tag = p.nm \o "/" \o fk \o "/" \o g1 \o "+" \o g2,
+       !.Ls = <<p.A, p.B>>, !.tau = QOne, !.sig = <<q(1, 2), q(1, 4)>>,
+       !.f = MkF(fk, 2, Half),
+       !.gs = <<MkF(g1, NRows(p.A), q(1, 4)), MkF(g2, NRows(p.B), q(1, 8))>>,
+       !.x0 = KStart(2)] : p \in KPairs, fk \in K2F, g1 \in K2G1, g2 \in K2G2 }
+KFB2(u_) ==
+  { [Base EXCEPT !.solver = "fb", !.tag = p.nm \o "/" \o fk \o "/" \o g1 \o "+" \o g2,
+       !.Ls = <<p.A, p.B>>, !.tau = q(1, 4), !.sig = <<q(1, 2), q(1, 4)>>,
+       !.f = MkF(fk, 2, Two),
+       !.gs = <<MkF(g1, NRows(p.A), q(1, 4)), MkF(g2, NRows(p.B), q(1, 8))>>,
+       !.h = FL2sq(q(1, 4), TVec(2)),
+       !.x0 = KStart(2)] : p \in KPairs, fk \in K2F, g1 \in K2G1, g2 \in K2G2 }
+\* ---- saddle problems without any strongly convex term (h = 0; f, g in {0, L1, box, point indicator}):
+\*      here the over-relaxation y = 2 x+ - x is what makes forward-backward converge
+KFBS(u_) ==
+  { [Base EXCEPT !.solver = "fb", !.tag = m.nm \o "/" \o fk \o "/" \o gk \o "/saddle",
+       !.Ls = <<m.M>>, !.tau = Half, !.sig = <<Half>>,
+       !.f = MkF(fk, NCols(m.M), QOne), !.gs = <<MkF(gk, NRows(m.M), QOne)>>,
+       !.x0 = KStart(NCols(m.M))] :
+    m \in {Named("D12", D12)} \cup (IF Thorough THEN {Named("I2", I2)} ELSE {}),
+    fk \in {"Zero", "L1t"} \cup (IF Thorough THEN {"Box"} ELSE {}),
+    gk \in {"Pt0", "Box", "L1"} \cup (IF Thorough THEN {"Pt"} ELSE {}) }
+
 MC_Catalogue ==
   CASE Solver = "pdhg" -> PDHGCat(0)
     [] Solver = "admm" -> ADMMCat(0)
@@ -268,13 +313,13 @@ MC_Catalogue ==
     [] Solver = "cg" -> CGCat(0)
     [] Solver = "cgn" -> CGNCat(0)
     [] Solver = "power" -> PowerCatN(0)
-    [] Solver = "iter" -> LandweberCat(0) \cup KaczmarzCat(0) \cup PGCat(0) \cup MLEMCat(0) \cup SDCat(0)
+    [] Solver = "iter" -> LandweberCat(0) \cup KaczmarzCat(0) \cup PGCat(0) \cup MLEMCat(0) \cup SDCat(0) \cup NLCat(0)
     [] Solver = "aliasdemo" -> { I \in ADMMCat(0) \cup DPDCCat(0) : I.f.k = "L1" }
     [] Solver = "mono" -> CGCat(0) \cup CGNCat(0) \cup LandweberCat(0) \cup KaczmarzCat(0) \cup SDBTCat(0) \cup PowerCatN(0)
     [] Solver = "kkt-pdhg" -> KPDHGCat(0)
     [] Solver = "kkt-admm" -> KADMMCat(0)
-    [] Solver = "kkt-dr" -> KDRCat(0)
-    [] Solver = "kkt-fb" -> KFBCat(0)
+    [] Solver = "kkt-dr" -> KDRCat(0) \cup { I \in KDR2(0) : DRAdmissible(I) }
+    [] Solver = "kkt-fb" -> KFBCat(0) \cup { I \in KFB2(0) \cup KFBS(0) : FBAdmissible(I) }
     [] Solver = "kkt-pg" -> KPGCat(0)
 
 HalfLattice(a, b) == { q(j, 2) : j \in a..b }
@@ -285,7 +330,8 @@ MC_LatY == IF WithKKT THEN HalfLattice(-4, 4) ELSE {}
 (* ------------------------------ export --------------------------------- *)
 MaxDen == 65536
 \* stop exploring an instance once its lattice is finer than snapping can resolve
-DenBound == DenState(ref) <= MaxDen * 64
+DenBound == DenState(ref) <= (IF Len(inst.Ls) > 1 /\ inst.solver \in {"dr", "fb"} THEN MaxDen ELSE MaxDen * 64)
+            \* (several operators with different sigma_i: the next step needs more headroom in 32 bits)
 
 ExportLine ==
   (split = -1 /\ AtHead) =>
